@@ -212,7 +212,9 @@ Proof. destruct (start t p k h); reflexivity. Qed.
 Ltac stp Hk :=
   erewrite step_eq; [| rewrite <- Hk; cbn [kstep ret cret app got];
     repeat (match goal with H : ?c = _ |- context [if ?c then _ else _] => rewrite H end);
-    rewrite ?start_eta; cbn [app]; reflexivity].
+    try (match goal with |- context [start ?a ?b ?c ?d] =>
+           let x := fresh "st0" in set (x := start a b c d); rewrite (surjective_pairing x); subst x end);
+    cbn [app]; reflexivity].
 
 Definition client_top (k : stack rwc) : Prop :=
   match k with [] => True | WReadW _ :: _ => True | CRead _ :: _ => True | _ => False end.
